@@ -4,7 +4,7 @@ import json, os, subprocess
 ROOT = os.path.dirname(os.path.dirname(os.path.abspath(__file__)))
 props = [json.loads(l) for l in open(os.path.join(ROOT, "properties.jsonl"))]
 
-HOOK_COMMITS = ["cbbf2a7"]
+HOOK_COMMITS = ["cbbf2a7", "00ee6c3", "aa3601d"]
 
 CHECKS = {
  "C04": dict(engine="QueryLifecycle", category="model_checking", design_ref="DESIGN.md §5 C04",
@@ -23,6 +23,10 @@ CHECKS = {
    technique="TLA+ model of Do with cancellation/deadline enabled in every state (TLC safety + liveness under fairness) + cancellation injected after every prefix of every recorded schedule on the real client, validated by TLC (trace validation)",
    text="TLC checks CancelReturnsCtx, CancelCloses, CancelPacketOnce, NoOrphans and the liveness property Returns; on the real client a cancellation or deadline expiry is injected at every gate of every baseline run (and from inside callbacks); the bytes written by the cancel-watch, Close calls, errors.Is against the context's error and leftover library goroutines are validated against the specification. The wall-clock bound (read timeout + grace) is covered by the free-running runs of C12's driver, not by this gated replay.",
    note="Trusted: TLC; gate scheduler; cancellation inside a blocking conn.Read is represented by the gated in-memory connection."),
+ "C11": dict(engine="Pool", category="model_checking", design_ref="DESIGN.md §5 C11",
+   technique="TLA+ model of chpool over an abstract puddle (TLC exhaustive at 2-3 users) + operation histories (exhaustive to a bound, TLC-generated, random, with real short lifetimes) replayed on a real pool over in-memory connections, every recorded operation validated by TLC, which infers puddle's unobservable asynchronous steps (trace validation)",
+   text="TLC checks OneHolder, MaxConns, NoDeadIdle, NoPanic, HeldIsAcquired, PermitsSane, AllClosedAfterClose and ReleaseIdempotent; on the real pool every operation sequence of length 3 (quick) / 4 (thorough) for two users over one connection, TLC-simulated behaviours and random histories with time passing are replayed; which connection a handle got and which served its request, errors, panics (also in foreign goroutines: the process dying is isolated per history), puddle's Stat(), closed connections, ages and idle times are validated.",
+   note="Trusted: TLC; the scripted per-connection servers; ages measured by the harness before and after each operation (a decision inside a 15 ms band around the limits is accepted either way); interleaving is at operation granularity (concurrent use: C12)."),
  "C14": dict(engine="Writer", category="model_checking", design_ref="DESIGN.md §5 C14",
    technique="TLA+ model of the vectored writer with explicit backing arrays (TLC exhaustive) + every bounded operation sequence executed on the real proto.Writer and validated by TLC (trace validation)",
    text="Exhaustive at the stated sequence length over a 12-operation alphabet, plus random long sequences; each Flush's delivered bytes are compared by TLC with the specification's pending contents.",
@@ -62,6 +66,8 @@ def main():
         "engines": [
             {"name": "QueryLifecycle", "path": "spec/QueryLifecycle.tla", "serves_properties": ["C03", "C04", "C09", "C10", "C12"],
              "kind_free_text": "TLA+ state machine of Client.Do (three goroutines, errgroup, writer, connection, faults, cancellation, next request); MC_QL*.cfg model checking, Gen_QL*.cfg behaviour generation, Trace_QL trace validation"},
+            {"name": "Pool", "path": "spec/Pool.tla", "serves_properties": ["C11", "C12"],
+             "kind_free_text": "TLA+ model of chpool.Pool/Client over an abstract puddle (permits, idle set, async destroy, health check, MinConns, close); MC_Pool*.cfg, Gen_Pool*.cfg, Trace_Pool"},
             {"name": "Writer", "path": "spec/Writer.tla", "serves_properties": ["C14"],
              "kind_free_text": "TLA+ model of proto.Writer with explicit backing arrays and views; MC_Writer*.cfg, Trace_Writer"},
         ],
